@@ -15,9 +15,11 @@ import (
 	"fmt"
 	"os"
 	"path/filepath"
+	"runtime/pprof"
 	"strconv"
 	"strings"
 	"sync"
+	"syscall"
 	"time"
 
 	"verifharness/vf"
@@ -104,7 +106,7 @@ func crashPlan(c *vf.Ctx) []caseSpec {
 	return out
 }
 
-func killsPerSequence(c *vf.Ctx) int { return c.Pick(7, 10) }
+func killsPerSequence(c *vf.Ctx) int { return c.Pick(5, 10) }
 
 const workers = 14
 
@@ -169,8 +171,14 @@ func worker(c *vf.Ctx, arg string) {
 	kind, w, n := parseArg(arg)
 	switch kind {
 	case "seq":
+		if pf := os.Getenv("C17_PPROF"); pf != "" {
+			f, _ := os.Create(fmt.Sprintf("%s.%d", pf, w))
+			_ = pprof.StartCPUProfile(f)
+			defer pprof.StopCPUProfile()
+		}
+		only := os.Getenv("C17_ONLY")
 		for _, cs := range plan(c) {
-			if cs.Idx%n != w {
+			if cs.Idx%n != w || only != "" && cs.Profile.Name != only {
 				continue
 			}
 			runSequence(c, cs, nil)
@@ -193,7 +201,17 @@ type seqResult struct {
 
 // runSequence generates and executes one sequence with the oracle. hook, if set, is
 // called with the runner before the first op (crash part: installs the mutation counter).
+func cpuMS() int64 {
+	var ru, rc syscall.Rusage
+	_ = syscall.Getrusage(syscall.RUSAGE_SELF, &ru)
+	_ = syscall.Getrusage(syscall.RUSAGE_CHILDREN, &rc)
+	t := func(tv syscall.Timeval) int64 { return tv.Sec*1000 + tv.Usec/1000 }
+	return t(ru.Utime) + t(ru.Stime) + t(rc.Utime) + t(rc.Stime)
+}
+
 func runSequence(c *vf.Ctx, cs caseSpec, hook func(*runner)) *runner {
+	cpu0 := cpuMS()
+	defer func() { c.Count("cpu-ms(reporting only):"+cs.Profile.Name, cpuMS()-cpu0) }()
 	id := fmt.Sprintf("%s-%d-rw%d", cs.Profile.Name, cs.Idx, cs.RW)
 	stream := uint64(cs.Idx) + 1
 	if hook != nil {
@@ -227,7 +245,7 @@ func runSequence(c *vf.Ctx, cs caseSpec, hook func(*runner)) *runner {
 			break
 		}
 		lastK = op.K
-		full := len(r.m.ents) <= 3000 || op.K == "reopen" || n%6 == 0 || op.Expect == "conflict-into-rotated-file"
+		full := fullPolicy(r, op, n)
 		if !r.bundle(n, full) {
 			break
 		}
@@ -258,6 +276,12 @@ func runSequence(c *vf.Ctx, cs caseSpec, hook func(*runner)) *runner {
 			"conflicts": r.conflicts, "reopens": r.reopens, "final_first": r.m.first(), "final_last": r.m.lastEnt()})
 	}
 	return r
+}
+
+// fullPolicy: compare every retained entry after this op? Always for small logs, after a
+// reopen and after a conflict into a rotated file; otherwise every 6th op.
+func fullPolicy(r *runner, op Op, n int) bool {
+	return len(r.m.ents) <= 3000 && r.m.bytes <= 4<<20 || op.K == "reopen" || n%6 == 0 || strings.HasPrefix(op.Expect, "conflict-into-rotated-file")
 }
 
 func head(ops []Op, n int) []Op {
@@ -326,7 +350,7 @@ func replay(c *vf.Ctx) {
 			break
 		}
 		// the recorded sequence decided "full" from the same state, re-derive it
-		full := len(r.m.ents) <= 3000 || op.K == "reopen" || (n+1)%6 == 0 || op.Expect == "conflict-into-rotated-file" || n == len(w.Ops)-1
+		full := fullPolicy(r, op, n+1) || n == len(w.Ops)-1
 		if !r.bundle(n+1, full) {
 			break
 		}
